@@ -388,40 +388,6 @@ Definition client_init : cphase := PHdr [] [].
 
 (* ------------------------------------------------------------------ server *)
 
-Definition is_space (b : N) : bool :=   (* std::isspace in the C locale *)
-  (b =? 32) || ((9 <=? b) && (b <=? 13)).
-
-Fixpoint drop_space (l : list N) : list N :=
-  match l with
-  | b :: t => if is_space b then drop_space t else l
-  | [] => []
-  end.
-
-(* std::stoull(value) / std::stoul(s, nullptr, 16): leading white space, optional sign,
-   (base 16: optional 0x/0X), at least one digit, the rest ignored.
-   None = std::invalid_argument or std::out_of_range; result is modulo 2^64 for '-'. *)
-Definition sto_u64 (base : N) (l : list N) : option N :=
-  let l := drop_space l in
-  let '(neg, l) := match l with
-                   | 45 :: t => (true, t)
-                   | 43 :: t => (false, t)
-                   | _ => (false, l)
-                   end in
-  let l := if base =? 16 then
-             match l with
-             | 48 :: x :: (h :: _) as t =>
-               if ((x =? 120) || (x =? 88)) && is_hex h then t else l
-             | _ => l
-             end
-           else l in
-  let '(ds, _) := take_while (if base =? 16 then is_hex else is_digit) l in
-  match ds with
-  | [] => None
-  | _ =>
-    let v := digits_val base 0 ds in
-    if v <? 2 ^ 64 then Some (if neg then (2 ^ 64 - v) mod 2 ^ 64 else v) else None
-  end.
-
 Definition MAX_BUFFER_SIZE : N := 1048576.
 Definition MAX_HEADER_SIZE : N := 65536.
 Definition MAX_BODY_SIZE : N := 10485760.
@@ -430,65 +396,52 @@ Definition MAX_BODY_SIZE : N := 10485760.
 Definition header_lines (hs : list N) : list (list N) :=
   map (fun l => match rev l with 13 :: r => rev r | _ => l end) (split_on 10 hs).
 
-Definition te_name_s := te_name.
-Definition contains (pat l : list N) : bool :=
-  match find_pat pat l with Some _ => true | None => false end.
+(* The header scan of handleIncomingData (after the repair of C15-F5b/F5d/F5g): Content-Length through the strict
+   parser (parse_content_length, the client's), field-lines must agree; Transfer-Encoding: chunked iff it is the
+   final coding of the (last) field-line.  HClose = closeSession (declared body beyond MAX_BODY_SIZE; the session
+   record stays), HBad = 400 + close (invalid / conflicting / ambiguous length information; the record goes). *)
+Inductive hscan := HClose | HBad | HFraming (content_length : N) (chunked : bool).
 
-(* string::erase(find_last_not_of(" \t") + 1) etc. on key and value *)
-Inductive hscan := HClose | HFraming (content_length : N) (chunked : bool).
-
-Fixpoint scan_headers (lines : list (list N)) (cl : N) (chunked : bool) : hscan :=
+Fixpoint scan_headers (lines : list (list N)) (cl : option N) (te chunked bad : bool) : hscan :=
   match lines with
-  | [] => HFraming cl chunked
+  | [] =>
+    if bad || (te && (match cl with Some _ => true | None => false end || negb chunked)) then HBad
+    else HFraming (match cl with Some n => n | None => 0 end) chunked
   | line :: rest =>
     match find_pat [58] line with
-    | None => scan_headers rest cl chunked
+    | None => scan_headers rest cl te chunked bad
     | Some (k, v) =>
       let key := map lower (trim k) in
       let value := trim v in
       if list_eqb key cl_name then
-        match sto_u64 10 value with
-        | None => HClose
-        | Some n => if MAX_BODY_SIZE <? n then HClose else scan_headers rest n chunked
+        match parse_content_length value with
+        | None => scan_headers rest cl te chunked true
+        | Some n =>
+          if match cl with Some m => negb (n =? m) | None => false end then scan_headers rest cl te chunked true
+          else if MAX_BODY_SIZE <? n then HClose
+          else scan_headers rest (Some n) te chunked bad
         end
       else if list_eqb key te_name then
-        scan_headers rest cl (chunked || contains chunked_tok (map lower value))
-      else scan_headers rest cl chunked
+        scan_headers rest cl true (te_final_is_chunked value) bad
+      else scan_headers rest cl te chunked bad
     end
   end.
 
-(* findChunkedRequestEnd (after the fixes): position arithmetic replaced by the suffix; the end offset of the
-   chunked body, "need more data" (npos), or "malformed chunk size" (kChunkedInvalid) *)
-Inductive cend := ENeed | EBad | EEnd (n : N).
-Fixpoint chunked_end (fuel : nat) (l : list N) (consumed : N) : option cend :=
-  (* None = out of fuel (a defect) *)
-  match fuel with
-  | O => None
-  | S f =>
-    match l with
-    | [] => Some ENeed
-    | _ =>
-      match find_pat CRLF l with
-      | None => Some ENeed
-      | Some (szline, after) =>
-        match sto_u64 16 szline with
-        | None => Some EBad
-        | Some sz =>
-          let consumed1 := consumed + lenN szline + 2 in
-          if sz =? 0 then
-            match find_pat CRLF after with
-            | None => Some ENeed
-            | Some (t, _) => Some (EEnd (consumed1 + lenN t + 2))
-            end
-          else
-            if (lenN after <? sz) || (lenN after - sz <? 2) then Some ENeed
-            else chunked_end f (skipn (N.to_nat (sz + 2)) after) (consumed1 + sz + 2)
-        end
-      end
-    end
+(* findChunkedRequestEnd (after the repair of C15-F5e/F5h): the strict scan of RFC 9112 7.1 - the same algorithm as the
+   client's advanceChunked, run from the start of the body every time, with MAX_BODY_SIZE as the chunk-size cap.
+   ENeed = npos, EBad = kChunkedInvalid, EEnd n dec = one past the final CRLF and the decoded chunk data. *)
+Inductive cend := ENeed | EBad | EEnd (n : N) (decoded : list N).
+Definition chunked_end (body : list N) (body_start : N) : cend :=
+  match advance (S (length body)) MAX_BODY_SIZE body [] with
+  | CDone dec surplus => EEnd (body_start + (lenN body - lenN surplus)) dec
+  | CMal => EBad
+  | CNeed _ _ => ENeed
+  | CFuel => ENeed                      (* unreachable: http_client_chunked_terminates *)
   end.
 
-Inductive sact := SRequest (raw : list N) | SClose.
+(* a framed request: its raw bytes (what httpRequestFramed sees) and the body handed to the handler (since the
+   repair of C15-F5i a chunked body is decoded) *)
+Inductive sact := SRequest (raw : list N) (body : list N) | SClose.
 
 (* the while(true) of handleIncomingData over the complete buffer *)
 Fixpoint extract (fuel : nat) (data : list N) : list sact * list N * bool :=
@@ -500,24 +453,22 @@ Fixpoint extract (fuel : nat) (data : list N) : list sact * list N * bool :=
     | None => ([], data, false)
     | Some (hs, body) =>
       if MAX_HEADER_SIZE <? lenN hs then ([SClose], data, true) else
-      match scan_headers (header_lines hs) 0 false with
+      match scan_headers (header_lines hs) None false false false with
       | HClose => ([SClose], data, true)
+      | HBad => ([SClose], [], true)              (* 400 + close: the session record goes with it *)
       | HFraming cl chunked =>
         let cres :=
-            if chunked then
-              match chunked_end (S (length body)) body (lenN hs + 4) with
-              | Some r => r
-              | None => ENeed
-              end
-            else if lenN data <? lenN hs + 4 + cl then ENeed else EEnd (lenN hs + 4 + cl) in
+            if chunked then chunked_end body (lenN hs + 4)
+            else if lenN data <? lenN hs + 4 + cl then ENeed
+                 else EEnd (lenN hs + 4 + cl) (firstn (N.to_nat cl) body) in
         match cres with
         | ENeed => ([], data, false)
-        | EBad => ([SClose], [], true)            (* 400 + close (the session record goes with it): more bytes cannot repair the chunk size *)
-        | EEnd e =>
+        | EBad => ([SClose], [], true)            (* 400 + close: more bytes cannot repair the chunk syntax *)
+        | EEnd e dec =>
           let req := firstn (N.to_nat e) data in
           let rest := skipn (N.to_nat e) data in
           let '(acts, rem, closed) := extract f rest in
-          (SRequest req :: acts, rem, closed)
+          (SRequest req dec :: acts, rem, closed)
         end
       end
     end
